@@ -160,9 +160,12 @@ func (t *Trie) lookupEmitter(query Ssid, subs *Subscribers, node *node, filter f
 		t.lookupEmitter(query[1:], subs, n, filter)
 	}
 
-	// Go through wildcard match branch
-	if n, ok := node.children[wildcard]; ok {
-		t.lookupEmitter(query[1:], subs, n, filter)
+	// Go through wildcard match branch (if the query level is the wildcard itself, that branch was just visited:
+	// descending into it a second time doubles the work at every such level)
+	if query[0] != wildcard {
+		if n, ok := node.children[wildcard]; ok {
+			t.lookupEmitter(query[1:], subs, n, filter)
+		}
 	}
 }
 
@@ -179,9 +182,11 @@ func (t *Trie) lookupMqtt(query Ssid, subs *Subscribers, node *node, filter func
 		t.lookupMqtt(query[1:], subs, n, filter)
 	}
 
-	// Go through wildcard match branch
-	if n, ok := node.children[wildcard]; ok {
-		t.lookupMqtt(query[1:], subs, n, filter)
+	// Go through wildcard match branch (unless the exact match above was that very branch)
+	if query[0] != wildcard {
+		if n, ok := node.children[wildcard]; ok {
+			t.lookupMqtt(query[1:], subs, n, filter)
+		}
 	}
 
 	// Add subscribers from multi-wildcard branch
